@@ -82,8 +82,36 @@ var (
 	opPulls  = []string{simRegHost + "/lib/m0", simRegHost + "/lib/m1", simRegHost + "/LIB/m0", simRegHost + "/lib/M0", simRegHost + "/lib/m0:v1", simRegHost + "/lib/m0:V1", simRegHost + "/Lib/M1:latest"}
 )
 
+// Every run concentrates on a few models and tags (drawn by focusOpNames), so that histories
+// in which several tags of one model, case variants of one tag, etc. coexist are frequent.
+var opFocusModels, opFocusTags []string
+
+func focusOpNames() {
+	opFocusModels, opFocusTags = nil, nil
+	for i := 0; i < 3; i++ {
+		opFocusModels = append(opFocusModels, opModels[verifsim.Draw("focus-model", len(opModels))])
+		opFocusTags = append(opFocusTags, opTags[verifsim.Draw("focus-tag", len(opTags))])
+	}
+}
+
 func drawOpName() string {
+	if len(opFocusModels) > 0 && verifsim.Draw("op-focus", 4) != 0 {
+		return opFocusModels[verifsim.Draw("op-model", len(opFocusModels))] + opFocusTags[verifsim.Draw("op-tag", len(opFocusTags))]
+	}
 	return opModels[verifsim.Draw("op-model", len(opModels))] + opTags[verifsim.Draw("op-tag", len(opTags))]
+}
+
+// flipTagCase changes the letter case of the tag of a name only.
+func flipTagCase(n string) string {
+	i := strings.LastIndex(n, ":")
+	if i < 0 || i < strings.LastIndex(n, "/") {
+		return n + ":LATEST"
+	}
+	tag := n[i+1:]
+	if up := strings.ToUpper(tag); up != tag {
+		return n[:i+1] + up
+	}
+	return n[:i+1] + strings.ToLower(tag)
 }
 
 // drawStoreOp draws one operation; existing = names currently known to exist (for sources / deletes).
@@ -93,11 +121,13 @@ func drawStoreOp(existing []string, allowRestart bool) storeOp {
 		if len(existing) > 0 && d("op-existing", 5) != 0 {
 			n := existing[d("op-existing-which", len(existing))]
 			// sometimes address it in another letter case
-			switch d("op-case", 4) {
+			switch d("op-case", 6) {
 			case 0:
 				return strings.ToUpper(n[:1]) + n[1:]
 			case 1:
 				return strings.ToLower(n)
+			case 2, 3:
+				return flipTagCase(n)
 			}
 			return n
 		}
@@ -110,10 +140,16 @@ func drawStoreOp(existing []string, allowRestart bool) storeOp {
 		op.kind, op.gguf = "blob", d("op-gguf", 4)
 	case k < 6:
 		op.kind, op.name, op.gguf, op.extra = "create", drawOpName(), d("op-gguf", 4), d("op-variant", 8)
+		if d("op-dst-existing", 4) == 0 {
+			op.name = pickExisting()
+		}
 	case k < 9:
 		op.kind, op.name, op.from, op.extra = "create-from", drawOpName(), pickExisting(), d("op-variant", 8)
 	case k < 12:
 		op.kind, op.name, op.from = "copy", drawOpName(), pickExisting()
+		if d("op-dst-existing", 4) == 0 {
+			op.name = pickExisting()
+		}
 	case k < 15:
 		op.kind, op.name = "delete", pickExisting()
 	case k < 18:
@@ -353,6 +389,7 @@ func runOps(t *testing.T, tape *verifsim.Tape, prop, tier string, keepLog bool) 
 		w.reg.plan = &faultPlan{} // fault-free network: fault arms belong to C03 / C12
 		w.publishGGUFModels()
 		lastShownTemplate = ""
+		focusOpNames()
 		minDownloadPartSize, maxDownloadPartSize = 64<<10, 256<<10
 		nops := 5 + d("nops", 36)
 		if tier == "thorough" {
